@@ -93,7 +93,7 @@ Section Dag.
     tp_old : forall x v, low_get (low st) x = Some v -> low_get (low st') x = Some v;
     tp_new : forall x, In x (dom st') -> ~ In x (dom st) -> low_get (low st') x = Some N /\ In [x] (comps st');
     tp_comps_mono : forall c, In c (comps st) -> In c (comps st');
-    tp_comps_new : forall c, In c (comps st') -> In c (comps st) \/ exists x, c = [x];
+    tp_comps_new : forall c, In c (comps st') -> In c (comps st) \/ exists x, c = [x] /\ In x (dom st');
     tp_inv : tinv st'
   }.
 
@@ -117,7 +117,9 @@ Section Dag.
       + destruct (tp_new _ _ P x H2 H1) as [A B]. split; [apply (tp_old _ _ Q), A | apply (tp_comps_mono _ _ Q), B].
       + apply (tp_new _ _ Q x H3 H2).
     - intros c H. apply (tp_comps_mono _ _ Q), (tp_comps_mono _ _ P), H.
-    - intros c H. destruct (tp_comps_new _ _ Q c H) as [H' | H']; [|auto]. apply (tp_comps_new _ _ P c H').
+    - intros c H. destruct (tp_comps_new _ _ Q c H) as [H' | H']; [|auto].
+      destruct (tp_comps_new _ _ P c H') as [H'' | [x [E Hx]]]; [auto|]. right. exists x. split; [exact E|].
+      eapply tpost_dom_mono; eauto.
     - apply (tp_inv _ _ Q).
   Qed.
 
@@ -238,8 +240,9 @@ Section Dag.
              destruct (tp_new _ _ P12 x Hx Hn1) as [X Y]. split; [exact X | apply in_or_app; left; exact Y].
         * intros c H. apply in_or_app. left. apply (tp_comps_mono _ _ P12). exact H.
         * intros c H. apply in_app_iff in H as [H | [<- | []]].
-          -- apply (tp_comps_new _ _ P12 c H).
-          -- right. exists n. reflexivity.
+          -- destruct (tp_comps_new _ _ P12 c H) as [H' | [x [E Hx]]]; [auto|]. right. exists x. split; [exact E|].
+             unfold dom. cbn [low]. rewrite Dom3. exact Hx.
+          -- right. exists n. split; [reflexivity|]. unfold dom. cbn [low]. rewrite Dom3. exact Dn2.
         * destruct (tp_inv _ _ P12) as [X Y]. constructor; unfold dom; cbn [low]; rewrite Dom3; assumption.
       + unfold dom. cbn [low]. rewrite Dom3. exact Dn2.
   Qed.
@@ -262,10 +265,10 @@ Lemma visit_all_dag g (Ha : acyclic g) (Hc : closed_graph g) fuel : forall ns st
   tinv g st ->
   (forall x v, low_get (low st) x = Some v -> v = length g) ->
   (forall x, In x (dom st) -> In [x] (comps st)) ->
-  (forall c, In c (comps st) -> exists x, c = [x]) ->
+  (forall c, In c (comps st) -> exists x, c = [x] /\ In x (gkeys g)) ->
   (forall x, In x ns -> In x (dom st')) /\
   (forall x, In x (dom st') -> In [x] (comps st')) /\
-  (forall c, In c (comps st') -> exists x, c = [x]).
+  (forall c, In c (comps st') -> exists x, c = [x] /\ In x (gkeys g)).
 Proof.
   induction ns as [|n r IH]; intros st st'; simpl.
   - intros Q _ _ _ A B. inversion Q. subst. split; [intros x []|]. auto.
@@ -281,8 +284,9 @@ Proof.
     { intros x H. destruct (in_dec node_eq_dec x (dom st)) as [H0 | H0].
       - apply (tp_comps_mono _ _ _ P), A, H0.
       - apply (tp_new _ _ _ P x H H0). }
-    assert (B1 : forall c, In c (comps st1) -> exists x, c = [x]).
-    { intros c H. destruct (tp_comps_new _ _ _ P c H) as [H0 | H0]; auto. }
+    assert (B1 : forall c, In c (comps st1) -> exists x, c = [x] /\ In x (gkeys g)).
+    { intros c H. destruct (tp_comps_new _ _ _ P c H) as [H0 | [x [Ec Hx]]]; [auto|]. exists x. split; [exact Ec|].
+      apply (ti_keys _ _ (tp_inv _ _ _ P)), Hx. }
     destruct (IH st1 st' Q (fun x H => K x (or_intror H)) (tp_inv _ _ _ P) D1 A1 B1) as [R1 [R2 R3]].
     split; [|auto]. intros x [<- | H]; [|auto].
     (* n stays in the domain *)
@@ -321,7 +325,7 @@ Qed.
 
 Theorem scc_dag g cs :
   acyclic g -> closed_graph g -> scc g = Ok cs ->
-  (forall c, In c cs -> exists x, c = [x]) /\ (forall n, In n (gkeys g) -> In [n] cs).
+  (forall c, In c cs -> exists x, c = [x] /\ In x (gkeys g)) /\ (forall n, In n (gkeys g) -> In [n] cs).
 Proof.
   intros Ha Hc. unfold scc.
   destruct (visit_all (S (length g)) g (gkeys g) (mkT [] [] [])) as [st|] eqn:E; [|discriminate].
